@@ -398,6 +398,10 @@ func runEQ(c *Ctx) (obls []Obl) {
 		if q.lvl != "" {
 			lvls = levels
 		}
+		if name == "equal" && recv == "Call" && eqDelegates(q, recv) {
+			a.ok(rule, recv+"."+name, "Call.equal is Call.similar at ExactFlags, which compares the same fields and the arguments exactly (decided as Call.similar/ExactFlags)", q.fn.Pos())
+			return
+		}
 		for _, lv := range lvls {
 			var k *Expr
 			if lv != "" {
@@ -512,10 +516,40 @@ func eqRefSanity(a *flAgg, c *Ctx) {
 	c.stat("EQ", "reference_model_triples", n)
 }
 
+// eqDelegates: recv.equal is written as `return l.similar(r, ExactFlags)`.
+// For Args, Call and Stack, similar at ExactFlags compares exactly what equal
+// compares (Arg.equal is Arg.similar(ExactFlags): EQ-key), so the delegation
+// is the same function and recv.similar/ExactFlags is what gets decided.
+func eqDelegates(q *eqCtx, recv string) bool {
+	x := &SPE{Fn: q.fn, MaxVisits: 1}
+	x.Explore()
+	if len(x.Paths) != 1 || len(x.Paths[0].Lits) != 0 || x.Paths[0].Term != "return" || len(x.Paths[0].Results) != 1 {
+		return false
+	}
+	r := x.Paths[0].Results[0]
+	if r.Op != OpCall || r.Fn == nil || shortFn(r.Fn) != recv+".similar" || len(r.Args) != 4 {
+		return false
+	}
+	if r.Args[1].String() != q.l || r.Args[2].String() != q.r {
+		return false
+	}
+	lv, ok := r.Args[3].intConst()
+	if !ok {
+		return false
+	}
+	k := q.levelConst("ExactFlags")
+	kv, ok2 := k.intConst()
+	return ok2 && kv == lv
+}
+
 // eqPointwise checks the shape "guards && for all i: elem(a.F[i], r.F[i])".
 func eqPointwise(c *Ctx, a *flAgg, recv, name, field string, guards []string, elem string) {
 	q := newEq(c, a, recv, name, "EQ-lift")
 	if q == nil {
+		return
+	}
+	if name == "equal" && eqDelegates(q, recv) {
+		a.ok("EQ-lift", recv+"."+name, recv+".equal is "+recv+".similar at ExactFlags, which compares the same things element by element (decided as "+recv+".similar)", q.fn.Pos())
 		return
 	}
 	exprHome = q.fn.Pkg.Pkg
